@@ -196,6 +196,19 @@ def run_packed_io(ctx):
                 ctx.check(mod2.midi_in_channel == (ch + 3) % 17, "C12.smii.independent", "setting always changed channel", recipe=rec)
                 if always or ch:
                     ctx.mark_nontrivial(rec)
+                # the loaded module's two sub-fields are changed one at a time and saved again
+                for always2, ch2 in ((not always, ch), (always, (ch + 5) % 17), (always, 0)):
+                    b2 = read_sunvox_file(BytesIO(data))
+                    lm = b2.module if cx == "synth" else b2.modules[1]
+                    if always2 != always:
+                        lm.midi_in_always = always2
+                    if ch2 != ch:
+                        lm.midi_in_channel = ch2
+                    d2 = b2.read()
+                    sec2 = chunktools.module_sections(chunktools.parse(d2))[2][-1]
+                    smii2 = [pl for cid, pl in sec2 if cid == b"SMII"]
+                    want2 = struct.pack("<I", int(always2) | (ch2 << 1))
+                    ctx.check(smii2 == [want2], "C12.smii.edit_after_load", "loaded always=%r channel=%d, then always=%r channel=%d: SMII is %r, expected %r" % (always, ch, always2, ch2, smii2, want2), recipe=dict(rec, op="smii_edit_after_load", new_always=always2, new_channel=ch2))
     for a in range(8):
         for b in range(8):
             ctx.case()
@@ -212,6 +225,30 @@ def run_packed_io(ctx):
             ctx.check(int(q.receive_sync_midi) == a and int(q.receive_sync_other) == b, "C12.sfgs.roundtrip", "midi=%d other=%d loads as %r/%r" % (a, b, q.receive_sync_midi, q.receive_sync_other), recipe=rec)
             if a and b:
                 ctx.mark_nontrivial(rec)
+            # the loaded project's sub-fields are changed one at a time (also inside a MetaModule's
+            # project), it is saved, and the word in the file holds exactly the two current values
+            for a2, b2 in ((a, (b + 3) % 8), ((a + 5) % 8, b), (0, b), (a, 0), (a, b & 3), (a & 1, b)):
+                ctx.case()
+                q = read_sunvox_file(BytesIO(data))
+                if a2 != a:
+                    q.receive_sync_midi = a2
+                if b2 != b:
+                    q.receive_sync_other = b2
+                rec2 = {"op": "sfgs_edit_after_load", "midi": a, "other": b, "new_midi": a2, "new_other": b2}
+                data2 = q.read()
+                head2 = chunktools.module_sections(chunktools.parse(data2))[0]
+                want2 = struct.pack("<I", a2 | (b2 << 3))
+                sf2 = [pl for cid, pl in head2 if cid == b"SFGS"]
+                ctx.check(sf2 == [want2], "C12.sfgs.edit_after_load.bytes", "loaded with midi=%d other=%d, then midi=%d other=%d: SFGS is %r, expected %r" % (a, b, a2, b2, sf2, want2), recipe=rec2)
+                q2 = read_sunvox_file(BytesIO(data2))
+                ctx.check(int(q2.receive_sync_midi) == a2 and int(q2.receive_sync_other) == b2, "C12.sfgs.edit_after_load.roundtrip", "loaded with midi=%d other=%d, then midi=%d other=%d: loads as %r/%r" % (a, b, a2, b2, q2.receive_sync_midi, q2.receive_sync_other), recipe=rec2)
+            if (a + b) % 5 == 0:
+                mm = m.MetaModule()
+                mm.project.receive_sync_midi, mm.project.receive_sync_other = a, b
+                lm = read_sunvox_file(BytesIO(Synth(mm).read())).module
+                lm.project.receive_sync_other = b ^ 4
+                lm2 = read_sunvox_file(BytesIO(Synth(lm).read())).module
+                ctx.check(int(lm2.project.receive_sync_midi) == a and int(lm2.project.receive_sync_other) == b ^ 4, "C12.sfgs.edit_after_load.embedded", "embedded project loaded with other=%d then set to %d: loads as %r" % (b, b ^ 4, lm2.project.receive_sync_other), recipe={"op": "sfgs_embedded", "midi": a, "other": b})
     ctx.label("packed_io")
     ctx.sample({"op": "smii+sfgs", "channels": channels})
 
